@@ -28,9 +28,21 @@ CHECKS = {
          "T is read from the trace hook, body records and decoded opcodes are counted, tail and total bounds recomputed, for every call.", "DESIGN.md §5 C11", ""),
  "C17": ("exploration", SIM + "invariant checked while the run proceeds: per-emission snapshots of the simulated stack/memo vs the kind-tracking reference machine (R3) under the compatibility relation R4",
          "Step-by-step refinement check of the generator's simulated state against R3 on every prefix of every generated pickle of a seeded batch. Bounded-depth enumeration is replaced by seeded search plus exhaustive scripts of <= 2 bytes (thorough).", "DESIGN.md §5 C17", "Long runs (> 6000 opcodes) compare every 64th snapshot."),
+ "C09": ("exploration", SIM + "seeded search over entropy faults (exhaustion at every point, hostile f64, stuck bytes), degenerate/out-of-range configuration and call histories, executed in supervised child processes (crash/abort/stack-overflow/hang observed from outside); exhaustive for fuzzer scripts of <= 1 byte (quick) / <= 2 bytes (thorough)",
+         "Totality is observed from outside the process: shards run in child workers on 2 MiB stacks with a BEGIN/END protocol, catch_unwind for panics, a watchdog whose kills are confirmed by a solo re-execution before being called a hang.", "DESIGN.md §5 C09", "Allocation failure is not injected (it aborts)."),
+ "C12": ("exploration", "reach probes (sometimes-assertions) of the deterministic simulator over a fixed seed range with default settings; no fault or schedule is involved",
+         "Existential property: a witness seed per (protocol, opcode) pair is searched in a fixed seed window; a clean run exhibits the witnesses, a failing run means no witness within the stated budget.", "DESIGN.md §5 C12", "Required vocabulary = pickletools opcodes with proto <= P."),
+ "C14": ("exploration", SIM + "seeded search over generate/reset/reconfigure/drop histories with a counting global allocator as the conservation oracle (live bytes before construction == after drop, steady state under repetition)",
+         "History exploration with a conservation oracle on the allocator seam; every history is executed twice and only the second execution is measured.", "DESIGN.md §5 C14", "Allocation failure is not injected."),
+ "C15": ("fault_enumeration", SIM + "fault-point enumeration on the entropy reader: every mutator method called directly on real sources (PRNG seeds; fuzzer scripts cut at every length, hostile f64 patterns at the gate and elsewhere) at rate 0.0 and 1.0, plus in-situ Spy records of seeded simulated runs",
+         "Rate extremes are checked (a) in situ with Spy-wrapped real mutators inside seeded runs and (b) by enumerating fault points of the entropy reader for direct calls.", "DESIGN.md §5 C15", ""),
+ "C16": ("fault_enumeration", SIM + "value grid x entropy fault points for direct calls of every Mutator method, plus contract checks on every Spy record of seeded simulated runs",
+         "Each firing of a mutator, in situ or in a direct call on boundary values and exhausted/hostile entropy, is checked against the documented contract; panics are caught.", "DESIGN.md §5 C16", ""),
+ "C18": ("fault_enumeration", SIM + "end-of-stream / short-read fault enumeration on the entropy seam: every EntropySource method x argument grid x ALL fuzzer scripts of length <= 2, sampled longer scripts at every cut, sampled PRNG states",
+         "The adapters' range contracts and fixed fallbacks are enumerated over all short scripts and sampled beyond.", "DESIGN.md §5 C18", "gen_bytes(usize::MAX) excluded: allocation failure aborts."),
 }
 PENDING = "check under construction in this session (see DESIGN.md §5)"
-NOT_APPLICABLE = {k: PENDING for k in ["C07","C09","C12","C13","C14","C15","C16","C18"]}
+NOT_APPLICABLE = {k: PENDING for k in ["C07","C13"]}
 
 def main():
     checks = []
